@@ -206,7 +206,7 @@ class C12(Check):
                   'not proof: exploration is the honest level for a schedule-quantified property.')
     level_note = ('Trusted: CPython 3.12 sys.monitoring event delivery, the baton scheduler, GIL atomicity of '
                   'single instructions. Yield points exist only in clastic/generated/harness code.')
-    runs = {'quick': 4000, 'thorough': 100000}
+    runs = {'quick': 3000, 'thorough': 100000}
     shrink_lists = (('preempts',), ('ticks',), ('requests',), ('marathon', 'T0'), ('marathon', 'T1'), ('marathon', 'T2'), ('marathon', 'T3'))
     hashseeds = {'quick': [1], 'thorough': [1, 2]}
     rule = ('seeded schedules (PCT priority-change, uniform random, targeted bursts) plus a complete '
@@ -290,15 +290,16 @@ class C12(Check):
         rng = Streams(base_seed)['sweep']
         pairs = [(a, b) for a in kinds for b in kinds]
         if tier == 'quick':
-            pairs = rng.sample(pairs, 24)
+            # every same-kind pair (two clients of ONE route / error kind: where per-route state is shared), mixed pairs sampled
+            pairs = [(a, a) for a in kinds] + rng.sample([p for p in pairs if p[0] != p[1]], 10)
             grans = ['line']
         else:
             grans = ['line', 'ins']
         for gran in grans:
             for a, b in pairs:
-                ra = make_request(a, 11, 'alice')
+                ra = make_request(a, 11, 'alice', 'text/html' if a == b else None)
                 ra['name'] = 'T0'
-                rb = make_request(b, 22, 'bob')
+                rb = make_request(b, 22, 'bob', 'application/json' if a == b else None)
                 rb['name'] = 'T1'
                 n = solo_steps(cfg, ra, gran)
                 stride = 1 if gran == 'line' else (1 if tier == 'thorough' else 3)
@@ -306,6 +307,20 @@ class C12(Check):
                     yield {'world': 'threads', 'seed': base_seed, 'config': cfg, 'requests': [ra, rb],
                            'granularity': gran, 'order': ['T0', 'T1'], 'preempts': [[k, 'T1']],
                            'mode': 'depth1'}
+        # the very first requests of a freshly built application (lazy initialisation): A pre-empted at every line,
+        # B (an unknown URL / a wrong method / a plain hit) served completely in between
+        cold_pairs = [('hi', 'missing'), ('hi', 'm405'), ('missing', 'hi'), ('item_del', 'item_post'), ('ctx', 'boom')]
+        if tier == 'quick':
+            cold_pairs = cold_pairs[:3]
+        for a, b in cold_pairs:
+            ra = make_request(a, 11, 'alice')
+            ra['name'] = 'T0'
+            rb = make_request(b, 22, 'bob')
+            rb['name'] = 'T1'
+            n = solo_steps(cfg, ra, 'line')
+            for k in range(1, n + 1):
+                yield {'world': 'threads', 'seed': base_seed, 'config': cfg, 'requests': [ra, rb], 'granularity': 'line',
+                       'order': ['T0', 'T1'], 'preempts': [[k, 'T1']], 'mode': 'depth1-cold', 'cold': True}
 
     def marathon_plans(self, tier, base_seed):
         """Long concurrent phases: two threads each serve hundreds of requests with DISTINCT branch-route paths, so
@@ -321,7 +336,8 @@ class C12(Check):
             seqs = {}
             for t in names:
                 seqs[t] = [{'x': '%s%s%d' % (tag, t, i), 'canon': rng.random() < 0.9, 'id': (i % 89) + 10} for i in range(n)]
-            total = nthreads * n * 110
+            per_request = solo_steps(cfg, dict(make_request('br', 11, 'calib'), name='T0'), 'line')
+            total = nthreads * n * (per_request + 10)
             p = rng.choice([0.005, 0.01, 0.02])
             pre = []
             step = 0
@@ -416,6 +432,13 @@ class C12(Check):
             if not s['one_dispatch_state'] or not s['one_request_obj']:
                 res.violate('C12/sequential/dispatch-state-not-shared-within-request',
                             '%s: layers of one request saw different request/dispatch-state objects' % r['kind'])
+        # the request that will start first was also the one served LAST before the concurrent phase (a client polling
+        # one URL): whatever the framework remembers about "the previous request" is about this very request
+        first = [r for r in reqs if r['name'] == order[0]]
+        if first and not cold:
+            s = do_request(app, first[0])
+            all_ids.extend(s['ids'])
+            all_guids.extend(s['guids'])
         got = {}
         tasks = {}
         for r in reqs:
